@@ -173,6 +173,20 @@ Proof.
   - apply calc_resolved_ident. exact H4.
 Qed.
 
+(* the branch pair of a conditional is never folded (hence never evaluated) by compile: it
+   compiles whenever its two branches do, to a node that is not a constant *)
+Lemma compile_colon_never_folds n tbl ps a b c1 c2 :
+  compile n tbl ps a = Ok c1 -> compile n (c_tbl c1) ps b = Ok c2 ->
+  exists c, compile (S n) tbl ps (OBin KColon a (Some b)) = Ok c /\
+            c_tbl c = c_tbl c2 /\ is_value (c_op c) = false /\
+            (c_changed c = true -> c_op c = OBin KColon (c_op c1) (Some (c_op c2))) /\
+            (c_changed c = false -> c_op c = OBin KColon a (Some b)).
+Proof.
+  intros H1 H2. cbn [Expr.compile]. rewrite H1. cbn [bind]. rewrite H2. cbn [bind is_colon negb andb].
+  destruct (c_changed c1 || c_changed c2); eexists; (split; [reflexivity|]); cbn;
+    repeat split; auto; discriminate.
+Qed.
+
 (* ---- the definition-free fragment: values, identifiers, unary and binary operators,
    conditionals.  There compile only resolves identifiers. *)
 Fixpoint pure (o : op) : bool :=
@@ -225,7 +239,7 @@ Proof.
       do c1 <- compile n tbl [] l;
       do c2 <- compile n (c_tbl c1) [] r;
       if c_changed c1 || c_changed c2 then
-        (if is_value (c_op c1) && is_value (c_op c2)
+        (if negb (is_colon k) && is_value (c_op c1) && is_value (c_op c2)
          then do x <- calc n (c_tbl c2) [] (OBin k (c_op c1) (Some (c_op c2)));
               do w <- wrap_xval x; Ok (mkC w true (c_tbl c2))
          else Ok (mkC (OBin k (c_op c1) (Some (c_op c2))) true (c_tbl c2)))
@@ -238,7 +252,7 @@ Proof.
     destruct (IH _ _ _ Hr E2) as (T2 & O2 & V2 & U2).
     cbn [resolve].
     destruct (c_changed c1) eqn:Ch1; cbn [orb] in Hc.
-    + rewrite (V1 eq_refl) in Hc. cbn [andb] in Hc. injection Hc as <-.
+    + rewrite (V1 eq_refl), andb_false_r in Hc. cbn [andb] in Hc. injection Hc as <-.
       cbn [c_tbl c_op c_changed is_value]. rewrite O1, O2. repeat split; auto; discriminate.
     + destruct (c_changed c2) eqn:Ch2.
       * rewrite (V2 eq_refl), andb_false_r in Hc. injection Hc as <-.
@@ -303,24 +317,27 @@ Definition w_cp : comm -> Z := fun _ => 2.
 Definition w_ternary : list tok :=
   [TVal (w_num 1); TLess; TVal (w_num 2); TQuery; TVal (w_num 3); TColon; TVal (w_num 4)].
 
-Lemma ternary_print_not_parsable :
+(* prints as ((1 < 2) ? 3 : 4), which parses back to the same tree *)
+Lemma ternary_print_parses_back :
   exists t, parse w_cp (parse_fuel w_ternary) w_ternary = Ok (Some t) /\
             print t = [TLParen; TLParen; TVal (w_num 1); TLess; TVal (w_num 2); TRParen; TQuery;
-                       TLParen; TVal (w_num 3); TColon; TVal (w_num 4); TRParen; TRParen] /\
-            parse w_cp (parse_fuel (print t)) (print t) = Err EOther /\
+                       TVal (w_num 3); TColon; TVal (w_num 4); TRParen] /\
+            parse w_cp (parse_fuel (print t)) (print t) = Ok (Some t) /\
             run false w_cp [] w_ternary = Ok (Some (XV (w_num 3))).
 Proof. eexists. split; [vm_compute; reflexivity|]. split; [reflexivity|]. split; vm_compute; reflexivity. Qed.
 
-(* `true ? (x = 1; 2) : 3`: evaluating the tree as parsed gives 2, compiling it fails *)
+(* `true ? (x = 1; 2) : 3`: both branches become constants during compilation; the value is 2
+   directly and after compilation (before /repo 329da20 compile evaluated the O_COLON node and
+   failed: F34) *)
 Definition w_fold : list tok :=
   [TVal (VBool true); TQuery; TLParen; TIdent [120]; TAssign; TVal (w_num 1); TSemi; TVal (w_num 2); TRParen;
    TColon; TVal (w_num 3)].
 
-Lemma fold_breaks_ternary :
+Lemma fold_keeps_ternary :
   exists t, parse w_cp (parse_fuel w_fold) w_fold = Ok (Some t) /\
             calc false w_cp 50 [] [] t = Ok (XV (w_num 2)) /\
-            eval false w_cp 50 [] t = Err EOther.
-Proof. eexists. split; [vm_compute; reflexivity|]. split; vm_compute; reflexivity. Qed.
+            (exists tbl, eval false w_cp 50 [] t = Ok (XV (w_num 2), tbl)).
+Proof. eexists. split; [vm_compute; reflexivity|]. split; [vm_compute; reflexivity|]. eexists. vm_compute. reflexivity. Qed.
 
 (* `$0.01 * $0.01 * $0.01 & 5` under a pool where $ shows 2 decimals *)
 Definition w_dz : list tok :=
